@@ -852,6 +852,8 @@ class Interp:
             r = self._dom_call("." + node.attr, [base], {}, node)
             if r is not NotImplemented:
                 return r
+            if node.attr in ("dtype", "itemsize", "nbytes", "flags"):
+                return Ref(f"meta:{short(node)}")  # storage metadata: says nothing about the values
             raise Unsupported(f"{fr.fi.loc(node)}: attribute .{node.attr} of an abstract value: {short(node)}")
         if isinstance(base, Ref):
             p = f"{base.path}.{node.attr}"
